@@ -81,6 +81,7 @@ type qFacts struct {
 	orders   []string   // ORDER BY keys in call order (constants); "¤" when one is not a constant
 	orderPos token.Pos
 	limit1   bool
+	wheres   []string // texts of the Where formats (¤ for non-constant pieces), factory parameters resolved per Apply site
 }
 
 func newQFacts() *qFacts {
@@ -113,6 +114,7 @@ func (a *qFacts) merge(b *qFacts) {
 		a.orderPos = b.orderPos
 	}
 	a.limit1 = a.limit1 || b.limit1
+	a.wheres = append(a.wheres, b.wheres...)
 }
 
 var (
@@ -166,10 +168,16 @@ func (qa *qAnalyzer) analyse(fn *ssa.Function) (classes map[ssa.Value]*qFacts, f
 	}
 	var events []ev
 	type inh struct {
-		cls ssa.Value
-		fns []*ssa.Function
+		cls     ssa.Value
+		fns     []*ssa.Function
+		factory bool // Apply(factory(…)): the Where texts are taken per call site (factoryWhereTexts)
 	}
 	var inherits []inh
+	type factoryApply struct {
+		cls  ssa.Value
+		call *ssa.Call
+	}
+	var factoryApplies []factoryApply
 	ri := &reachInfo{c: qa.c, memo: map[*ssa.Function]map[string]string{}, impls: map[*types.Func][]*ssa.Function{}}
 	for _, b := range fn.Blocks {
 		for _, ins := range b.Instrs {
@@ -194,7 +202,11 @@ func (qa *qAnalyzer) analyse(fn *ssa.Function) (classes map[ssa.Value]*qFacts, f
 					}
 					events = append(events, ev{recv, m, x})
 					if m == "Apply" && len(x.Call.Args) > 1 {
-						inherits = append(inherits, inh{recv, ri.funcsOfValue(x.Call.Args[1], 0)})
+						fc, isFactory := x.Call.Args[1].(*ssa.Call)
+						inherits = append(inherits, inh{recv, ri.funcsOfValue(x.Call.Args[1], 0), isFactory})
+						if isFactory {
+							factoryApplies = append(factoryApplies, factoryApply{recv, fc})
+						}
 					}
 					continue
 				}
@@ -207,7 +219,7 @@ func (qa *qAnalyzer) analyse(fn *ssa.Function) (classes map[ssa.Value]*qFacts, f
 						for _, a := range x.Call.Args {
 							if isSelectQuery(a.Type()) {
 								union(a, x)
-								inherits = append(inherits, inh{x, []*ssa.Function{f}})
+								inherits = append(inherits, inh{x, []*ssa.Function{f}, false})
 							}
 						}
 					}
@@ -324,6 +336,9 @@ func (qa *qAnalyzer) analyse(fn *ssa.Function) (classes map[ssa.Value]*qFacts, f
 				}
 			}
 		case "Where", "WhereOr":
+			if len(args) > 0 {
+				f.wheres = append(f.wheres, strVariants(args[0])...)
+			}
 			if s, ok := constArg(0); ok {
 				if reLedgerQ.MatchString(s) {
 					okBound := false
@@ -358,8 +373,15 @@ func (qa *qAnalyzer) analyse(fn *ssa.Function) (classes map[ssa.Value]*qFacts, f
 	for _, in := range inherits {
 		f := get(in.cls)
 		for _, g := range in.fns {
+			n := len(f.wheres)
 			f.merge(qa.paramFacts(g))
+			if in.factory {
+				f.wheres = f.wheres[:n]
+			}
 		}
+	}
+	for _, fa := range factoryApplies {
+		get(fa.cls).wheres = append(get(fa.cls).wheres, factoryWhereTexts(fa.call)...)
 	}
 	return classes, findF
 }
@@ -725,4 +747,87 @@ func scopeHasSeqKey(toks []sqlTok, lo, hi, d int) bool {
 		}
 	}
 	return false
+}
+
+// factoryWhereTexts: `Apply(factory(a, "col"))` — the Where formats of the builder literal the factory returns, with
+// the literal's captured variables resolved to the factory's parameters and those to the arguments of this call.
+func factoryWhereTexts(call *ssa.Call) []string {
+	g := staticCallee(call)
+	if g == nil || len(g.Blocks) == 0 {
+		return nil
+	}
+	var out []string
+	for _, lit := range g.AnonFuncs {
+		// bindings of the literal
+		var mc *ssa.MakeClosure
+		for _, b := range g.Blocks {
+			for _, ins := range b.Instrs {
+				if m, ok := ins.(*ssa.MakeClosure); ok && m.Fn == lit {
+					mc = m
+				}
+			}
+		}
+		if mc == nil {
+			continue
+		}
+		resolve := func(v ssa.Value) (string, bool) {
+			fv, ok := stripLoadOfParamCell(v).(*ssa.FreeVar)
+			if !ok {
+				if u, isU := v.(*ssa.UnOp); isU {
+					fv, ok = u.X.(*ssa.FreeVar)
+				}
+				if !ok {
+					return "", false
+				}
+			}
+			for i, f := range lit.FreeVars {
+				if f != fv || i >= len(mc.Bindings) {
+					continue
+				}
+				bnd := mc.Bindings[i]
+				// the binding is the factory's parameter, or the cell it was spilled into
+				var prm *ssa.Parameter
+				if p, ok := bnd.(*ssa.Parameter); ok {
+					prm = p
+				} else if a, ok := bnd.(*ssa.Alloc); ok {
+					if sv := singleStore(a); sv != nil {
+						prm, _ = sv.(*ssa.Parameter)
+					}
+				}
+				if prm == nil {
+					return "", false
+				}
+				idx := paramIndex(prm)
+				if idx < 0 || idx >= len(call.Call.Args) {
+					return "", false
+				}
+				return constString(call.Call.Args[idx])
+			}
+			return "", false
+		}
+		allCalls(lit, func(ci ssa.CallInstruction) {
+			name := calleeFullName(ci)
+			if name != "(*"+pkgBun+".SelectQuery).Where" && name != "(*"+pkgBun+".SelectQuery).WhereOr" {
+				return
+			}
+			args := ci.Common().Args
+			if len(args) < 2 {
+				return
+			}
+			for _, variant := range strParts(args[1]) {
+				text := ""
+				for _, pt := range variant {
+					if pt.isLit() {
+						text += pt.lit
+					} else if s, ok := resolve(pt.dyn); ok {
+						text += s
+					} else {
+						text += dynMark
+					}
+				}
+				out = append(out, text)
+			}
+		})
+	}
+	return out
 }
